@@ -1382,6 +1382,8 @@ func main() {
 			decisionFunc("driver/netconf/capabilities.go", "Driver.ServerHasCapability"))
 		fmt.Fprintf(&sw, "(* channel/sendinteractive.go Channel.sendInteractive *)\nDefinition send_interactive_code : list dstmt :=\n  %s.\n",
 			decisionFunc("channel/sendinteractive.go", "Channel.sendInteractive"))
+		fmt.Fprintf(&sw, "(* channel/sendinput.go Channel.SendInputB *)\nDefinition send_input_code : list dstmt :=\n  %s.\n",
+			decisionFunc("channel/sendinput.go", "Channel.SendInputB"))
 		// the loops that apply an option list to an object (C19)
 		var ol []string
 		for _, lf := range [][2]string{{"driver/generic/driver.go", "NewDriver"}, {"driver/network/driver.go", "NewDriver"}, {"driver/netconf/driver.go", "NewDriver"},
